@@ -28,6 +28,9 @@ type Decoder interface {
 }
 
 func NewDecoder(contentType string) (Decoder, error) {
+	// media types are case-insensitive
+	contentType = strings.ToLower(contentType)
+
 	switch {
 	case strings.Contains(contentType, "json"):
 		return JSONDecoder{}, nil
